@@ -289,7 +289,56 @@ func VHRingStep() {
 		vCover("ring: operation is the first call on an untouched zero ring")
 	}
 	n := vRange("n", -vParam("CNT"), vParam("CNT"))
-	switch vChoose("op", 6) {
+	switch vChoose("op", 7) {
+	case 6:
+		// Do with a callback that changes the ring behind the element being visited (linking a
+		// new element in, or unlinking the next one) without touching *r itself, which is the
+		// only thing container/ring leaves undefined.
+		total := len(s.ha)
+		at := vChoose("do.at", total)
+		kind := vChoose("do.kind", 2)
+		pa, pb := ra.Move(at), rb.Move(at)
+		if pb == rb || pb.Next() == rb || (kind == 1 && pb.Next().Next() == rb) {
+			return
+		}
+		na, nb := s.mk(1, "dv")
+		var da, db []int
+		ia, ib := 0, 0
+		panA := vPanics(func() {
+			ra.Do(func(v int) {
+				if ia == at {
+					if kind == 0 {
+						pa.Link(na)
+					} else {
+						pa.Unlink(1)
+					}
+				}
+				ia++
+				if ia > 3*total+3 {
+					panic("Do does not terminate")
+				}
+				da = append(da, v)
+			})
+		})
+		rb.Do(func(v any) {
+			if ib == at {
+				if kind == 0 {
+					pb.Link(nb)
+				} else {
+					pb.Unlink(1)
+				}
+			}
+			ib++
+			db = append(db, c06lv(v))
+		})
+		vAssert(!panA, "Do with a callback that links/unlinks behind the visited element terminates without panicking")
+		vAssert(len(da) == len(db), "Do (mutating callback): same number of calls")
+		for i := range da {
+			if i < len(db) {
+				vAssert(da[i] == db[i], "Do (mutating callback): same values in the same order")
+			}
+		}
+		vCover("ring: Do with a mutating callback")
 	case 0:
 		vAssert(s.idxA(ra.Next()) == s.idxB(rb.Next()), "Next: same element")
 		vAssert(s.idxA(ra.Prev()) == s.idxB(rb.Prev()), "Prev: same element")
